@@ -17,20 +17,20 @@ theorem keeps_foldl_state (w : World) {α : Type} (l : List α) (g : BState → 
   | cons a t ih => exact ih (g s0 a) (Keeps.trans w _ _ _ h0 (hg s0 a))
 
 theorem keeps_commit (w : World) (s : BState) (n : Name) : Keeps w s (commit s n) := by
-  unfold commit; split <;> exact (Keeps.of_rfl w rfl)
+  unfold commit; split <;> keeps_basic
 
-theorem keeps_resetCp (w : World) (s : BState) : Keeps w s (resetCp s) := (Keeps.of_rfl w rfl)
-theorem keeps_clearCp (w : World) (s : BState) : Keeps w s (clearCp s) := (Keeps.of_rfl w rfl)
+theorem keeps_resetCp (w : World) (s : BState) : Keeps w s (resetCp s) := by keeps_basic
+theorem keeps_clearCp (w : World) (s : BState) : Keeps w s (clearCp s) := by keeps_basic
 
 theorem keeps_rewindReadd (w : World) (s : BState) (n : Name) : Keeps w s (rewindReadd s n) := by
   unfold rewindReadd; split
   · exact Keeps.refl w s
-  · exact (Keeps.of_rfl w rfl)
+  · keeps_basic
 
 theorem keeps_rewindOp (w : World) (s : BState) : Keeps w s (rewindOp s) := by
   unfold rewindOp
   have h1 : Keeps w s { s with seq := s.seqCopy, log := s.log ++ [.rewind (akeys s.descriptors)] } :=
-    (Keeps.of_rfl w rfl)
+    (by keeps_basic)
   have h2 : Keeps w s (if rewindReaddsDescriptorStreams then
       (akeys ({ s with seq := s.seqCopy, log := s.log ++ [.rewind (akeys s.descriptors)] } : BState).descriptors).foldl
         rewindReadd { s with seq := s.seqCopy, log := s.log ++ [.rewind (akeys s.descriptors)] }
@@ -40,7 +40,7 @@ theorem keeps_rewindOp (w : World) (s : BState) : Keeps w s (rewindOp s) := by
     · exact h1
   simp only
   split
-  · exact Keeps.trans w _ _ _ h2 (Keeps.of_rfl w rfl)
+  · exact Keeps.trans w _ _ _ h2 (by keeps_basic)
   · exact h2
 
 theorem keeps_composeEvent (w : World) (s : BState) (n : Name) (u : Nat) (dk ext : List Key) (data : List (Key × Val))
@@ -49,15 +49,15 @@ theorem keeps_composeEvent (w : World) (s : BState) (n : Name) (u : Nat) (dk ext
   split
   · exact Keeps.refl w s
   · split
-    · exact (Keeps.of_rfl w rfl)
-    · split <;> exact (Keeps.of_rfl w rfl)
+    · keeps_basic
+    · split <;> keeps_basic
 
 theorem keeps_cacheReadConfig (w : World) (s : BState) (o : Obj) : Keeps w s (cacheReadConfig w s o).st := by
-  unfold cacheReadConfig; split <;> exact (Keeps.of_rfl w rfl)
+  unfold cacheReadConfig; split <;> keeps_basic
 
 theorem keeps_cacheDescribeConfig (w : World) (s : BState) (o : Obj) :
     Keeps w s (cacheDescribeConfig w s o).st := by
-  unfold cacheDescribeConfig; split <;> exact (Keeps.of_rfl w rfl)
+  unfold cacheDescribeConfig; split <;> keeps_basic
 
 theorem keeps_cacheDescribe (w : World) (s : BState) (o : Obj) (c : Bool) :
     Keeps w s (cacheDescribe w s o c).st := by
@@ -67,9 +67,9 @@ theorem keeps_cacheDescribe (w : World) (s : BState) (o : Obj) (c : Bool) :
   · split
     · exact Keeps.refl w s
     · split
-      · exact (Keeps.of_rfl w rfl)
+      · keeps_basic
       · split
-        · exact (Keeps.of_rfl w rfl)
+        · keeps_basic
         · exact Keeps.refl w s
 
 theorem keeps_cacheConfig (w : World) (s : BState) (o : Obj) : Keeps w s (cacheConfig w s o).st := by
@@ -96,14 +96,14 @@ theorem keeps_ensureAll (w : World) (s : BState) (objs : List Obj) (c : Bool) :
     exact keeps_andThen w s r _ h (fun s' => keeps_ensureCached w s' a c)
 
 theorem keeps_prepareStore (w : World) (s : BState) (n : Name) (objsDks : List (Obj × List Key)) (uid : Nat) :
-    Keeps w s (prepareStore w s n objsDks uid) := (Keeps.of_rfl w rfl)
+    Keeps w s (prepareStore w s n objsDks uid) := by keeps_basic
 
 theorem keeps_prepareFinish (w : World) (s : BState) (n : Name) (objsDks : List (Obj × List Key)) (uid : Nat) :
     Keeps w s (prepareFinish w s n objsDks uid) := by
   unfold prepareFinish
   split
   · exact keeps_prepareStore w s n objsDks uid
-  · exact Keeps.trans w _ _ _ (keeps_prepareStore w s n objsDks uid) (Keeps.of_rfl w rfl)
+  · exact Keeps.trans w _ _ _ (keeps_prepareStore w s n objsDks uid) (by keeps_basic)
 
 theorem keeps_prepareStream (w : World) (s : BState) (n : Name) (objsDks : List (Obj × List Key)) :
     Keeps w s (prepareStream w s n objsDks).st := by
@@ -112,13 +112,13 @@ theorem keeps_prepareStream (w : World) (s : BState) (n : Name) (objsDks : List 
   · exact Keeps.refl w s
   · split
     · split
-      · exact (Keeps.of_rfl w rfl)
+      · keeps_basic
       · refine Keeps.trans w _ _ _ ?_ (keeps_prepareFinish w _ n objsDks _)
-        exact (Keeps.of_rfl w rfl)
+        keeps_basic
     · refine Keeps.trans w _ _ _ ?_ (keeps_prepareFinish w _ n objsDks _)
-      exact (Keeps.of_rfl w rfl)
+      keeps_basic
 
-theorem keeps_dropMonitors (w : World) (s : BState) : Keeps w s (dropMonitors s).st := (Keeps.of_rfl w rfl)
+theorem keeps_dropMonitors (w : World) (s : BState) : Keeps w s (dropMonitors s).st := by keeps_basic
 
 theorem keeps_closeRunTail (w : World) (s : BState) (e r : String) : Keeps w s (closeRunTail s e r).st := by
   unfold closeRunTail
@@ -126,10 +126,10 @@ theorem keeps_closeRunTail (w : World) (s : BState) (e r : String) : Keeps w s (
   · exact Keeps.refl w s
   · simp only [Res.ok_st]
     split
-    · refine Keeps.trans w _ _ _ ?_ (Keeps.of_rfl w rfl)
+    · refine Keeps.trans w _ (resetCp _) _ ?_ (by keeps_basic)
       refine Keeps.trans w _ _ _ ?_ (keeps_resetCp w _)
-      exact (Keeps.of_rfl w rfl)
-    · exact (Keeps.of_rfl w rfl)
+      keeps_basic
+    · keeps_basic
 
 theorem keeps_closeRun (w : World) (s : BState) (e r : Option String) : Keeps w s (closeRun s e r).st := by
   unfold closeRun
@@ -144,8 +144,8 @@ theorem keeps_create (w : World) (s : BState) (n : Option Name) : Keeps w s (cre
   split
   · exact Keeps.refl w s
   · cases n with
-    | none => exact (Keeps.of_rfl w rfl)
-    | some n => simp only; split <;> exact (Keeps.of_rfl w rfl)
+    | none => keeps_basic
+    | some n => simp only; split <;> keeps_basic
 
 theorem keeps_read (w : World) (s : BState) (o : Obj) (rd : Reading) : Keeps w s (read w s o rd).st := by
   unfold read
@@ -156,7 +156,7 @@ theorem keeps_read (w : World) (s : BState) (o : Obj) (rd : Reading) : Keeps w s
     · intro s'
       split
       · exact Keeps.refl w s'
-      · exact (Keeps.of_rfl w rfl)
+      · keeps_basic
 
 theorem keeps_saveDescriptor (w : World) (s : BState) (n : Name) (objs : List Obj) :
     Keeps w s (saveDescriptor w s n objs).st := by
@@ -179,12 +179,12 @@ theorem keeps_save (w : World) (s : BState) : Keeps w s (save w s).st := by
   · exact Keeps.refl w s
   · split
     · simp only [Res.ok_st]; split
-      · exact (Keeps.of_rfl w rfl)
+      · keeps_basic
       · exact Keeps.refl w s
     · split
-      · exact (Keeps.of_rfl w rfl)
+      · keeps_basic
       · rename_i n hn
-        refine Keeps.trans w _ { s with bundling := false, bundleName := none } _ (Keeps.of_rfl w rfl) ?_
+        refine Keeps.trans w _ { s with bundling := false, bundleName := none } _ (by keeps_basic) ?_
         apply keeps_andThen
         · exact keeps_saveDescriptor w _ n _
         · intro s'; exact keeps_saveEvent w s' n _
@@ -192,14 +192,14 @@ theorem keeps_save (w : World) (s : BState) : Keeps w s (save w s).st := by
 theorem keeps_drop (w : World) (s : BState) : Keeps w s (drop s).st := by
   unfold drop; split
   · exact Keeps.refl w s
-  · exact (Keeps.of_rfl w rfl)
+  · keeps_basic
 
 theorem keeps_monitorSubscribe (w : World) (s : BState) (o : Obj) (n : Name) :
     Keeps w s (monitorSubscribe s o n).st := by
   unfold monitorSubscribe
   split
   · exact Keeps.refl w s
-  · exact (Keeps.of_rfl w rfl)
+  · keeps_basic
 
 theorem keeps_monitor (w : World) (s : BState) (o : Obj) (n : Name) : Keeps w s (monitor w s o n).st := by
   unfold monitor
@@ -240,8 +240,8 @@ theorem keeps_unmonitor (w : World) (s : BState) (o : Obj) : Keeps w s (unmonito
   · simp only
     split
     · refine Keeps.trans w _ _ _ ?_ (keeps_resetCp w _)
-      exact (Keeps.of_rfl w rfl)
-    · exact (Keeps.of_rfl w rfl)
+      keeps_basic
+    · keeps_basic
 
 theorem keeps_recordInterruption (w : World) (s : BState) (c : String) : Keeps w s (recordInterruption s c).st := by
   unfold recordInterruption
@@ -262,7 +262,7 @@ theorem keeps_reprepareOne (w : World) (s : BState) (o : Obj) (n : Name) :
   · exact Keeps.refl w s
   · split
     · refine Keeps.trans w _ _ _ ?_ (keeps_prepareStream w _ n _)
-      exact (Keeps.of_rfl w rfl)
+      keeps_basic
     · exact Keeps.refl w s
 
 theorem keeps_reprepareAll (w : World) (s : BState) (o : Obj) : Keeps w s (reprepareAll w s o).st := by
@@ -287,9 +287,9 @@ theorem keeps_declareStream (w : World) (s : BState) (n : Name) (objs : List Obj
     split
     · exact Keeps.refl w s'
     · refine Keeps.trans w _ _ _ ?_ (keeps_prepareStream w _ n _)
-      exact (Keeps.of_rfl w rfl)
+      keeps_basic
 
-theorem keeps_kickoff (w : World) (s : BState) (o : Obj) : Keeps w s (kickoff s o).st := (Keeps.of_rfl w rfl)
+theorem keeps_kickoff (w : World) (s : BState) (o : Obj) : Keeps w s (kickoff s o).st := by keeps_basic
 
 theorem keeps_packOne (w : World) (n : Name) (d : Desc) (p : PackSt) (a : Asset) (s : BState)
     (h : Keeps w s p.st) : Keeps w s (packOne n d p a).st := by
@@ -302,8 +302,8 @@ theorem keeps_packOne (w : World) (n : Name) (d : Desc) (p : PackSt) (a : Asset)
       split
       · exact h
       · split
-        · exact Keeps.trans w _ _ _ h (Keeps.of_rfl w rfl)
-        · exact Keeps.trans w _ _ _ h (Keeps.of_rfl w rfl)
+        · exact Keeps.trans w _ _ _ h (by keeps_basic)
+        · exact Keeps.trans w _ _ _ h (by keeps_basic)
     | datum uid resource descFilled start stop seqFilled =>
       simp only
       split
@@ -316,7 +316,7 @@ theorem keeps_packOne (w : World) (n : Name) (d : Desc) (p : PackSt) (a : Asset)
             · exact h
             · split
               · exact h
-              · exact Keeps.trans w _ _ _ h (Keeps.of_rfl w rfl)
+              · exact Keeps.trans w _ _ _ h (by keeps_basic)
 
 theorem keeps_packFold (w : World) (n : Name) (d : Desc) (l : List Asset) (p : PackSt) (s : BState)
     (h : Keeps w s p.st) : Keeps w s (l.foldl (packOne n d) p).st := by
@@ -346,7 +346,7 @@ theorem keeps_collectBump (w : World) (p : PackSt) (n : Name) : Keeps w p.st (co
     · exact Keeps.refl w _
     · simp only [Res.ok_st]
       split
-      · exact (Keeps.of_rfl w rfl)
+      · keeps_basic
       · exact Keeps.refl w _
 
 theorem keeps_collectInto (w : World) (s : BState) (objs : List Obj) (n : Name) (mis : List Mis) :
@@ -355,7 +355,7 @@ theorem keeps_collectInto (w : World) (s : BState) (objs : List Obj) (n : Name) 
   simp only
   refine Keeps.trans w _ _ _ ?_ (keeps_collectBump w _ n)
   refine Keeps.trans w _ _ _ ?_ (keeps_packExternalAssets w _ n _)
-  exact (Keeps.of_rfl w rfl)
+  keeps_basic
 
 theorem keeps_collectInner (w : World) (s : BState) (objs : List Obj) (nm : Option Name) (mis : List Mis) :
     Keeps w s (collectInner w s objs nm mis).st := by
@@ -363,15 +363,15 @@ theorem keeps_collectInner (w : World) (s : BState) (objs : List Obj) (nm : Opti
   split
   · exact Keeps.refl w s
   · split
-    · exact (Keeps.of_rfl w rfl)
+    · keeps_basic
     · split
       · refine keeps_andThen w _ _ _ ?_ ?_
         · refine Keeps.trans w _ _ _ ?_ (keeps_ensureCached w _ _ true)
-          exact (Keeps.of_rfl w rfl)
+          keeps_basic
         · intro s'; exact Keeps.refl w s'
-      · exact (Keeps.of_rfl w rfl)
+      · keeps_basic
     · refine Keeps.trans w _ _ _ ?_ (keeps_collectInto w _ objs _ mis)
-      exact (Keeps.of_rfl w rfl)
+      keeps_basic
 
 theorem keeps_commitChanged (w : World) (before : List (Name × Nat)) (s : BState) :
     Keeps w s (commitChanged before s) := by
@@ -392,10 +392,10 @@ theorem keeps_backstopCollect (w : World) (s : BState) : Keeps w s (backstopColl
   · intro r a h
     exact Keeps.trans w _ _ _ h (keeps_collect w r.st [a] none [])
 
-theorem keeps_suspendMonitors (w : World) (s : BState) : Keeps w s (suspendMonitors s).st := (Keeps.of_rfl w rfl)
-theorem keeps_restoreMonitors (w : World) (s : BState) : Keeps w s (restoreMonitors s).st := (Keeps.of_rfl w rfl)
-theorem keeps_setCfg (w : World) (s : BState) (o : Obj) (c : Config) : Keeps w s (step w s (.setCfg o c)).st := (Keeps.of_rfl w rfl)
-theorem keeps_advance (w : World) (s : BState) (o : Obj) (k : Nat) : Keeps w s (step w s (.advance o k)).st := (Keeps.of_rfl w rfl)
+theorem keeps_suspendMonitors (w : World) (s : BState) : Keeps w s (suspendMonitors s).st := by keeps_basic
+theorem keeps_restoreMonitors (w : World) (s : BState) : Keeps w s (restoreMonitors s).st := by keeps_basic
+theorem keeps_setCfg (w : World) (s : BState) (o : Obj) (c : Config) : Keeps w s (step w s (.setCfg o c)).st := by keeps_basic
+theorem keeps_advance (w : World) (s : BState) (o : Obj) (k : Nat) : Keeps w s (step w s (.advance o k)).st := by keeps_basic
 theorem keeps_clearCheckpoint (w : World) (s : BState) : Keeps w s (step w s .clearCheckpoint).st := keeps_clearCp w s
 theorem keeps_resetCheckpoint (w : World) (s : BState) : Keeps w s (step w s .resetCheckpoint).st := keeps_resetCp w s
 theorem keeps_rewind (w : World) (s : BState) : Keeps w s (step w s .rewind).st := keeps_rewindOp w s
